@@ -6,6 +6,8 @@ func (cw *CodeWriter) AddMapping(pos token.Position) {
 	if cw.Mapper == nil {
 		return
 	}
+	// the mapping belongs to the token written next, after the pending layout
+	cw.flushPending()
 	cw.Mapper.AddMapping(pos.Line, pos.Column)
 }
 
@@ -13,5 +15,6 @@ func (cw *CodeWriter) AddNamedMapping(sourceLine, sourceColumn int, name string)
 	if cw.Mapper == nil {
 		return
 	}
+	cw.flushPending()
 	cw.Mapper.AddNamedMapping(sourceLine, sourceColumn, name)
 }
